@@ -78,6 +78,56 @@ def candidates_from_model(target, model, contract):
     return cands
 
 
+# ---- Lean: the lemma schemas whose ground instances the engine states are compiled on every run ---------------------
+LEAN_LEMMAS = {   # marker found in an assumption line -> theorem(s) of lemmas/Lemmas.lean that state the schema
+    "L1": ["L1_pow2_bit"], "L2": ["root_decompose", "reduce_flatten"], "L3": ["L3_unique_prefix"], "L4": ["L4_pow2_unique"],
+    "mod_witness": ["mod_witness"], "mod_step": ["mod_step"], "is_pow2": ["pow2_dvd", "pow2_double"],
+}
+
+
+def compile_lean_lemmas():
+    """Compile lemmas/Lemmas.lean (core Lean only).  Never changes a verdict: when lean is missing or the file does not
+    compile the schemas simply stay unchecked assumptions, and the evidence says so."""
+    import re, shutil
+    f = os.path.join(VERIF, "lemmas", "Lemmas.lean")
+    res = {"file": "lemmas/Lemmas.lean", "ok": False}
+    exe = shutil.which("lean")
+    if not exe or not os.path.exists(f):
+        res["reason"] = "lean or the lemma file not found"
+        return res
+    t = time.time()
+    try:
+        pr = subprocess.run([exe, f], capture_output=True, text=True, timeout=300)
+    except Exception as e:      # noqa: BLE001
+        res["reason"] = f"{type(e).__name__}: {e}"[:200]
+        return res
+    out = pr.stdout + pr.stderr
+    res["wall_s"] = round(time.time() - t, 2)
+    src = open(f).read()
+    if pr.returncode != 0 or "error" in out or "sorry" in out or "sorry" in src or re.search(r"^\s*axiom\b", src, re.M):
+        res["reason"] = "lean did not accept the file: " + out[:300]
+        return res
+    res["ok"] = True
+    res["theorems"] = re.findall(r"^theorem\s+(\w+)", src, re.M)
+    res["axioms_reported"] = [l.strip() for l in out.splitlines() if "depends on axioms" in l]
+    res["checker"] = "lean 4.33.0, core library only (no Mathlib), no sorry, no axiom declarations"
+    return res
+
+
+def relabel_with_lean(lines, lean):
+    out = []
+    for l in lines:
+        hit = [m for m in LEAN_LEMMAS if (m + ":" in l or m + " " in l or m + ")" in l or l.startswith(m)) and
+               all(t in lean.get("theorems", []) for t in LEAN_LEMMAS[m])]
+        if lean.get("ok") and hit:
+            ths = ", ".join(t for m in hit for t in LEAN_LEMMAS[m])
+            l += (f" [schema machine-checked on this run: lemmas/Lemmas.lean theorem {ths}; still assumed: that the ground "
+                  "instances the engine states are instances of that schema, and its transfer from Nat / List to the SMT sorts]")
+        out.append(l)
+    return out
+
+
+
 def main():
     ap = argparse.ArgumentParser()
     ap.add_argument("prop", nargs="?")
@@ -322,11 +372,14 @@ def check_property(prop, tier, a):
     proved = all_discharged and not undecided_fns
     level = "proof" if proved else "other"
     trusted = sorted(assumptions) + plans.TRUSTED_COMMON + plan.get("trusted", [])
+    lean = compile_lean_lemmas()
+    trusted = relabel_with_lean(trusted, lean)
     cov = {
         "obligations": obligations, "discharged": discharged,
         "checker_cmd": f"python3-vt check.py {prop} --tier {tier}",
         "trusted_base": trusted,
         "functions_under_contract": fn_levels,
+        "lemmas_machine_checked": lean,
         "by_backend": by_backend, "solver_time_s": round(solver_time, 3),
         "canaries": canaries, "canaries_refuted": canaries_ok,
         "undecided_obligations": [k for _, _, k in undecided],
